@@ -27,4 +27,5 @@ Spec == Init /\ [][Next]_vars
 InvVerdict == done => VerdictMatchesContract(Tree)
 InvErrorKind == done => ErrorNamesViolatedRule(Tree)
 InvSemantics == done => CompactPreservesSemantics(Tree)
+InvCount == done => InfosetCountMatches(Tree)
 ===============================================================================
